@@ -22,10 +22,15 @@ static int sm_compare(struct set *set, const void *a, const void *b)
     return 0;
 }
 
+/* the disposal callback is dispatched by identity; a harness over another unit names its
+ * callback with -DSET_MODEL_CLEANUP_FN=... before including this file */
+#ifndef SET_MODEL_CLEANUP_FN
+#define SET_MODEL_CLEANUP_FN iauth_req_cleanup
+#endif
 static void sm_dispose(struct set *set, struct set_node *node)
 {
-    if (set->cleanup == iauth_req_cleanup)
-        iauth_req_cleanup(set_node_data(node));
+    if (set->cleanup == SET_MODEL_CLEANUP_FN)
+        SET_MODEL_CLEANUP_FN(set_node_data(node));
     else
         V_ASSERT(set->cleanup == NULL, "set model: unknown cleanup");
     free(node);
